@@ -1103,6 +1103,12 @@ func c04ReplyFunnel(r *core.Run, rule, tn string, models map[string]*replyModel,
 	}
 	funnel := replyFunnel(p, setters[0])
 	funnels[funnel] = true
+	// the publishing step may sit in a private helper that only the funnel calls (publishReply): it is
+	// part of the funnel
+	funnelUnit := funnelWithHelpers(p, funnel)
+	for _, h := range funnelUnit {
+		funnels[h] = true
+	}
 	inFunnel := map[string]bool{}
 	for _, h := range p.Helpers(funnel) {
 		inFunnel[core.FuncName(h)] = true
@@ -1140,7 +1146,7 @@ func c04ReplyFunnel(r *core.Run, rule, tn string, models map[string]*replyModel,
 	}
 	r.Check(guarded, rule, core.FuncName(funnel), "store-true-guarded-by-!flag", p.InstrPos(store),
 		"store of true is dominated by the false edge of the flag test (second reply is refused)", "the flag is set without first testing it: a second reply would be published")
-	pubs := invokes([]*ssa.Function{funnel}, "Conn", "Publish")
+	pubs := invokes(funnelUnit, "Conn", "Publish")
 	// typestate for the case where test and store live in a bool helper (`if !r.claimReply() { return }`):
 	// 1 = the flag was stored true in this activation of the funnel
 	var flowRes *core.FlowResult
@@ -1310,4 +1316,31 @@ func c04ConstructorDefaultsAgree(r *core.Run, rule string) {
 	if n == 0 {
 		r.Unres(rule, "NewService/<setters>", "no member initialised by the constructor that a setter defaults with a constant")
 	}
+}
+
+// funnelWithHelpers: a reply funnel together with the private helpers that
+// only the funnel (or such a helper) calls.
+func funnelWithHelpers(p *core.Prog, funnel *ssa.Function) []*ssa.Function {
+	unit := []*ssa.Function{funnel}
+	if funnel == nil {
+		return nil
+	}
+	for _, h := range p.Helpers(funnel)[1:] {
+		only := true
+		for _, c := range p.CallersOf(h) {
+			inUnit := false
+			for _, u := range unit {
+				if c.Parent() == u {
+					inUnit = true
+				}
+			}
+			if !inUnit {
+				only = false
+			}
+		}
+		if only {
+			unit = append(unit, h)
+		}
+	}
+	return unit
 }
